@@ -1,5 +1,6 @@
 import CobaVerif.Driver.JsonUtil
 import CobaVerif.Model.C02
+import CobaVerif.Generated.C02GzPredicates
 open Lean Coba.J
 
 namespace Coba.C02.Driver
@@ -46,16 +47,17 @@ def nonEmptyIB (w : World) : Bool :=
 
 def permB (A B : List Rec) : Bool := A.all (fun r => B.contains r) && B.all (fun r => A.contains r) && A.length == B.length
 
-def outcomeJson (tbl : List (Rec × Bytes)) (w : World) (L : List Rec) (file : Option Bytes) (fl : Flags) : Json :=
+def outcomeJson (tbl : List (Rec × Bytes)) (w : World) (L : List Rec) (file : Option Bytes) (fl : Flags)
+    (extra : List (String × Json) := []) : Json :=
   match file with
-  | none => obj [("restore", Json.str "raise")]
+  | none => obj ([("restore", Json.str "raise")] ++ extra)
   | some f =>
   match resume fl w (some f) with
-  | none => obj [("restore", Json.str "raise")]
+  | none => obj ([("restore", Json.str "raise")] ++ extra)
   | some o =>
     let F := o.restored.K ++ o.appended
     let completeLines := ((splitNL f).1).filterMap w.c.dec
-    obj [("restore", Json.str "ok"),
+    obj (extra ++ [("restore", Json.str "ok"),
          ("kept", ofNat o.restored.file1.length),
          ("K", ofList (idxOfRec tbl) o.restored.K),
          ("tasks", ofList taskToJson o.tasks),
@@ -71,7 +73,7 @@ def outcomeJson (tbl : List (Rec × Bytes)) (w : World) (L : List Rec) (file : O
             ("valid", Json.bool (validLogB w F)),
             ("perm_universe", Json.bool (permB F w.universe && keysNodup F)),
             ("prefix", Json.bool (o.restored.K.isPrefixOf L)),
-            ("no_reeval", Json.bool (o.tasks.all (fun t => completeLines.all (fun r => decide (r.key ≠ t.key)))))])]
+            ("no_reeval", Json.bool (o.tasks.all (fun t => completeLines.all (fun r => decide (r.key ≠ t.key)))))])])
 
 /-- request: {"tbl":[entry…], "ver":i, "exp":i, "triples":[[e,l,v]…], "flags":[b,b,b], "log":[i…],
 "gz":bool, "cuts":[k…] | [[j,torn]…]} -/
@@ -83,23 +85,45 @@ def handle (req : Json) : Except String Json := do
   let exp ← recAt (← nat (← field req "exp"))
   let triples ← (← arr (← field req "triples")).mapM parseTriple
   let fl ← match (← (← arr (← field req "flags")).mapM bool) with
-    | [a, b, c] => pure (Flags.mk a b c)
-    | _ => throw "flags: 3 booleans expected"
+    | [a, b, c, d] => pure (Flags.mk a b c d)
+    | [a, b, c] => pure (Flags.mk a b c false)
+    | _ => throw "flags: 4 booleans expected"
   let L ← (← natList (← field req "log")).mapM recAt
   let gz ← bool (fieldD req "gz" (Json.bool false))
   let w := tableWorld tbl ver exp triples
   let texts := L.map w.c.enc
   let cuts ← arr (← field req "cuts")
+  -- `.gz`: the members of the real file: [record index or -1 for an empty payload, compressed bytes]
+  let mtbl ← (← arr (fieldD req "mtbl" (Json.arr #[]))).mapM (fun j => do
+    match (← arr j) with
+    | [i, b] =>
+      let i ← int i
+      let payload ← if i < 0 then pure [] else do pure ((← recAt i.toNat) |> w.c.enc |> (· ++ [NL]))
+      pure (Member.mk payload (← natList b))
+    | _ => throw "member: [record index, bytes] expected")
+  let ms ← (← natList (fieldD req "mlog" (Json.arr #[]))).mapM (fun i =>
+    match mtbl[i]? with | some m => pure m | none => throw s!"member index {i} out of range")
+  let scan := tableScan mtbl
   let outs ← cuts.mapM (fun c => do
     if gz then
-      match (← arr c) with
-      | [j, t] => pure (outcomeJson tbl w L (gzView fl texts (← nat j) (← bool t)) fl)
-      | _ => throw "gz cut: [j, torn] expected"
+      if ms.isEmpty then
+        match (← arr c) with
+        | [j, t] => pure (outcomeJson tbl w L (gzView fl texts (← nat j) (← bool t)) fl)
+        | _ => throw "gz cut: [j, torn] expected"
+      else
+        let data := (flatM ms).take (← nat c)
+        pure (outcomeJson tbl w L (gzText fl scan data) fl [("good", ofNat (memberScan scan data))])
     else
       pure (outcomeJson tbl w L (some (cut w L (← nat c))) fl))
+  let name ← natList (fieldD req "name" (Json.arr #[]))
   pure (obj [("hyp", obj [("world_ok", Json.bool (tableWorldOK tbl ver exp triples)),
                           ("valid_log", Json.bool (validLogB w L)),
-                          ("nonempty_i", Json.bool (nonEmptyIB w))]),
+                          ("nonempty_i", Json.bool (nonEmptyIB w)),
+                          ("member_table_ok", Json.bool (memberTableOK mtbl)),
+                          ("payload_log", Json.bool (payloadsM ms == logFile w L &&
+                             ms.all (fun m => m.payload.isEmpty || L.any (fun r => m.payload == w.c.enc r ++ [NL]))))]),
+             ("gz_decision", Json.arr #[Json.bool (Coba.Generated.C02Gz.sinkPred.eval name), Json.bool (Coba.Generated.C02Gz.sourcePred.eval name), Json.bool (Coba.Generated.C02Gz.repairPred.eval name)]),
+             ("gz_extracted", Json.bool Coba.Generated.C02Gz.extracted),
              ("log_len", ofNat (logFile w L).length),
              ("cuts", Json.arr outs.toArray)])
 
